@@ -377,7 +377,11 @@ def from_ast(e: ast.AST, env: Env) -> Term:
             return a_ * b_ if fs == 'np.multiply' else a_ + b_ if fs == 'np.add' else a_ - b_ if fs == 'np.subtract' \
                 else a_ * t_pow(b_, Term.const(-1))
         if fs in ('np.where', 'numpy.where') and len(args) == 3 and not kw:
-            if _snap_test(e.args[0]) == norm(e.args[2]) and args[1].is_const() and args[1].const_value() == 0:
+            mask_ = e.args[0]
+            if isinstance(mask_, ast.Name) and env.fn is not None:
+                from .astutil import single_locals as _sl
+                mask_ = _sl(env.fn).get(mask_.id, mask_)          # a named mask: `small = np.abs(x) < 1e-15`
+            if _snap_test(mask_) == norm(e.args[2]) and args[1].is_const() and args[1].const_value() == 0:
                 return args[2]          # snap-to-zero idiom: the identity up to the literal tiny threshold
             # piecewise value: the same term on both sides is that term; otherwise it stays an explicit piecewise atom
             if args[1] == args[2]:
